@@ -240,6 +240,11 @@ func (it *TxnIterator) advance() {
 			}
 		}
 		if !it.materializeEntry(entry, cf, userKey, version) {
+			if !it.opt.AllVersions && !it.opt.Reverse {
+				// Forward order yields the newest visible version first: a tombstone (or
+				// an expired entry) there hides every older version of this key.
+				it.lastKey = append(it.lastKey[:0], userKey...)
+			}
 			it.iitr.Next()
 			continue
 		}
